@@ -402,6 +402,52 @@ def step (st : St) (ws : List String) : St × String :=
     match parseStrWord p with
     | some p => (st, idx ++ " " ++ showJ (J.arr ((jpParse p).map J.str)))
     | none => (st, idx ++ " bad-op")
+  | ["wire", idx, ver, notify, qfmt, p, fmt, hex, dec] =>
+    -- one frame to a real Server: dispatched iff version 1, JSON-pointer query that is UTF-8, below a mounted prefix,
+    -- body decodable; otherwise refused before any effect (what the server answers then is another property's)
+    match fmt.toNat?, bytesOfHex hex,
+        (if dec = "!" ∨ dec = "-" then some none else (J.parse dec).map some) with
+    | some fmt, some body, some recorded =>
+      let dec : Decoders := ⟨fun _ => recorded, fun _ => recorded, fun _ => match recorded with
+        | some (.str s) => some s
+        | _ => none⟩
+      let target : Option (Ptr × Option J) :=
+        if ver = "1" ∧ qfmt = "1" ∧ p ≠ "!" then
+          match parseStrWord p with
+          | some path =>
+            match routerFind st.prefixes path with
+            | some pre =>
+              match pointerFor pre path, decodeBody dec fmt body with
+              | some ptr, .ok b => some (ptr, b)
+              | _, _ => none
+            | none => none
+          | none => none
+        else none
+      match target with
+      | none => (st, idx ++ " refused c" ++ toString st.reg.log.length)
+      | some (ptr, b) =>
+        let (reg', r) := st.reg.dispatch recheck ptr b
+        let c := " c" ++ toString reg'.log.length
+        ({ st with reg := reg' },
+          if (match r with
+              | .error e => isPanicCode e
+              | _ => false) then idx ++ " unspecified" ++ c
+          else if notify = "1" then idx ++ " dispatched" ++ c
+          else idx ++ " " ++ (match r with
+            | .ok v => "ok " ++ showJ v
+            | .error e => if isPanicCode e then "unspecified" else "err " ++ toString (codeOf e)) ++ c)
+    | _, _, _ => (st, idx ++ " bad-op")
+  | ["jpd", idx, d, sfx] =>
+    match d.toNat?, parseStrWord sfx with
+    | some d, some sfx =>
+      let leaf : J := .obj [("target".toList, .num "1"), ("k".toList, .arr [.num "0", .num "1"])]
+      let names := (List.range d).map fun i => ("d" ++ toString i).toList
+      let doc := names.foldr (fun nm v => J.obj [(nm, v)]) leaf
+      let p := (names.foldr (fun nm acc => '/' :: (nm ++ acc)) sfx)
+      (st, joinSp [idx, (match jpEval doc p with
+        | some r => "some " ++ showJ r
+        | none => "none"), toString (jpParse p).length])
+    | _, _ => (st, idx ++ " bad-op")
   | ["jpe", idx, j, p] =>
     match J.parse j, parseStrWord p with
     | some v, some p =>
